@@ -126,14 +126,16 @@ C("mako.codegen:_Identifiers.visitCallTag", params={"self": "Idents", "node": "T
 
 # ---- def / block registration: names unique, named blocks not inside defs or calls (C06) ---------------
 CLASSES["Idents"].fields.update({"topleveldefs": parse_ty("Dict[Str,Obj[TagLike]]"), "closuredefs": parse_ty("Dict[Str,Obj[TagLike]]")})
+_AT_NODE = "same(raised.lineno, node.lineno) and same(raised.pos, node.pos) and same(raised.filename, node.filename) and same(raised.source, node.source)"
 _CLASH = "(node.funcname in old(collection) and not same(old(collection)[node.funcname], node) and (node.is_block or old(collection)[node.funcname].is_block))"
 
 C("mako.codegen:_Identifiers._check_name_exists", params={"self": "Idents", "collection": "Dict[Str,Obj[TagLike]]", "node": "TagLike"},
   requires=[("entries-are-nodes", "forall(lambda k: implies(k in collection, collection[k] is not None), ty='Str')")],
   modifies=["collection"],
   ensures=[("registered-under-its-name", "collection == dict_set(old(collection), node.funcname, node)"), ("no-clash", "not %s" % _CLASH)],
-  raises={"CompileException": {"when": _CLASH.replace("old(collection)", "collection"), "ensures": [("registered-anyway", "collection == dict_set(old(collection), node.funcname, node)")]}},
-  props=["C06"], native_skip=True,
+  raises={"CompileException": {"when": _CLASH.replace("old(collection)", "collection"), "ensures": [("registered-anyway", "collection == dict_set(old(collection), node.funcname, node)"),
+                                                                                                    ("reported-at-the-clashing-node", _AT_NODE)]}},
+  props=["C06", "C11"], native_skip=True,
   note="a %def and a %def of one name may shadow each other; as soon as a block is involved the name must be unique")
 
 
@@ -160,9 +162,10 @@ C("mako.codegen:_Identifiers.visitBlockTag", params={"self": "Idents", "node": "
              "modifies": ["self.undeclared", "self.locally_declared", "self.argument_declared", "self.topleveldefs", "self.closuredefs", "heap('f:Idents.')", "heap('dval:Str~Any')", "heap('ddom:Str~Any')", "fresh_heap('set:Str')"]}},
   ensures=[("a named block is accepted only outside defs and calls", "implies(%s, not %s and not %s)" % (_NESTED_NAMED, _IN_DEF, _IN_CALL)),
            ("a named block's name was free in this template", "not old(%s)" % _TOP_CLASH)],
-  raises={"CompileException": {"when": "(%s and (%s or %s)) or %s or (node.is_anonymous and not same(node, self.node) and node.funcname in self.closuredefs and not same(self.closuredefs[node.funcname], node))" % (_NESTED_NAMED, _IN_DEF, _IN_CALL, _TOP_CLASH)},
+  raises={"CompileException": {"when": "(%s and (%s or %s)) or %s or (node.is_anonymous and not same(node, self.node) and node.funcname in self.closuredefs and not same(self.closuredefs[node.funcname], node))" % (_NESTED_NAMED, _IN_DEF, _IN_CALL, _TOP_CLASH),
+                               "ensures": [("a misplaced named block is reported where it begins", "implies(%s and (%s or %s), %s)" % (_NESTED_NAMED, _IN_DEF, _IN_CALL, _AT_NODE))]},
           "*": {}},
-  locals={"ident": "Str", "n": "ChildNode"}, props=["C06"], native_skip=True,
+  locals={"ident": "Str", "n": "ChildNode"}, props=["C06", "C11"], native_skip=True,
   note="children are visited under the induction hypothesis (R3); what they do to the registries is not constrained here")
 from vrf.pyvc.spec import CONTRACTS as _C2
 _C2["mako.codegen:_Identifiers.visitBlockTag"].opaque_attrs = True     # self.node is an arbitrary parse-tree node (only its name is read, for the message)
@@ -222,3 +225,27 @@ C("mako.codegen:_Identifiers.__init__",
   props=["C04"], native_skip=True,
   note="the node is visited under the induction hypothesis R3 (visitors only add names); the scope's inherited names are checked by the bounded scope grid")
 _C2["mako.codegen:_Identifiers.__init__"].opaque_attrs = True
+
+
+# ---- <%namespace> bodies: only defs and named blocks (C06), refused at the offending block (C11) -------------
+C("mako.codegen:_GenerateRenderMethod.write_namespaces.NSDefVisitor.visitDefOrBase",
+  params={"s": "Any", "node": "TagLike"},
+  captures={"self": "GenRM", "identifiers": "Idents", "export": "List[Str]"},
+  modifies=["export", "heap('f:Printer.')", "heap('set:Str')", "G.emit_n", "G.emit_last", "G.emit_prev", "G.dedents"],
+  ensures=[("only-named-defs-and-blocks-are-exported", "not node.is_anonymous and content(export) == old(content(export)) + [node.funcname]")],
+  raises={"CompileException": {"ensures": [("an anonymous block is reported where it begins", "implies(node.is_anonymous, %s)" % _AT_NODE)]}, "*": {}},
+  props=["C06", "C11"], native_skip=True,
+  note="the visitor class defined inside write_namespaces; `self`, `identifiers` and `export` are the enclosing function's")
+ASSUME("mako.codegen:_GenerateRenderMethod.write_inline_def", params={"self": "GenRM", "node": "TagLike", "identifiers": "Idents", "nested": "Bool=False"},
+       modifies=["heap('f:Printer.')", "heap('set:Str')", "G.emit_n", "G.emit_last", "G.emit_prev", "G.dedents"], raises={"*": {}},
+       note="emits the def as a nested function (outside the contracts)")
+
+# what these three callers see of CompileException(message, **node.exception_kwargs): the constructor's own (verified)
+# contract, contracts/errors.py, read through Python's ** binding
+for _caller in ("mako.codegen:_GenerateRenderMethod.write_namespaces.NSDefVisitor.visitDefOrBase",
+                "mako.codegen:_Identifiers._check_name_exists", "mako.codegen:_Identifiers.visitBlockTag"):
+    ASSUME("mako.exceptions:CompileException.__init__@" + _caller,
+           params={"self": "CompileException", "message": "Any", "**kw": "Dict[Str,Any]"},
+           modifies=["self.lineno", "self.pos", "self.filename", "self.source"],
+           ensures=[("carries-what-it-was-given", " and ".join("implies('%s' in kw, same(self.%s, kw['%s']))" % (f, f, f) for f in ("lineno", "pos", "filename", "source")))],
+           note="CompileException.__init__(message, source, lineno, pos, filename) called with the position as keywords")
